@@ -26,6 +26,11 @@ add("C08", "model_checking",
     "Close verdict judged against the weakest reading (see DESIGN.md §5 C08). Streams outside the mutation families are not explored.",
     "bounded-exhaustive enumeration of malformed streams against an independent decoder/CRC oracle", "seq", "DESIGN.md §5 C08")
 
+add("C18", "model_checking",
+    "Every sequence of up to 4 (thorough 5) tokens over an 18-token alphabet (a, é, ÿ, LF, CRLF, lone CR, space, runs of 996..999 a, 997 a + é, 499 é, 998/997 a + space, runs of 65534/65536/70000 a) is set as body through the real SetBody / SetBodyWithCharset; judged on the serialised bytes: CRLF line ends, no line over 1000 bytes, CR/LF-stripped text identical to the Latin-1 input, Body header == stored length, Body() and the re-parsed message decode to the same text.",
+    "Texts are compositions of the alphabet tokens; at most 1 (thorough 2) of the 64 KiB-class tokens per text. Trusted: the oracle's own Latin-1 conversion.",
+    "bounded-exhaustive enumeration of token sequences against the statement's normalisation relation", "seq", "DESIGN.md §5 C18")
+
 ids = [json.loads(l)["id"] for l in open("/verif/properties.jsonl")]
 na = [dict(property_id=i, reason="check not built yet in this session (planned, see DESIGN.md §5); not claimed until its command exists and is green") for i in ids if i not in checks]
 m = dict(version=1,
